@@ -53,7 +53,11 @@ namespace cnl {
         constexpr int rep_exponent = -fractional_digits;
         using scale = power<rep_exponent>;
 
-        using rep_type = set_digits_t<natural_result, result_digits>;
+        // the quotient is negative if either operand is; built-in division of mixed signedness is unsigned
+        using signed_result = numbers::set_signedness_t<
+                natural_result,
+                numbers::signedness_v<Dividend> || numbers::signedness_v<Divisor>>;
+        using rep_type = set_digits_t<signed_result, result_digits>;
         using rep = decltype(_impl::not_scaled_integer(std::declval<rep_type>()));
 
         return _impl::from_rep<scaled_integer<rep, scale>>(
